@@ -33,6 +33,7 @@ type childKey struct{}
 
 type activation struct {
 	id       int64
+	epoch    int64
 	deferred bool // running inside runDeferred (fresh context)
 }
 
@@ -49,6 +50,7 @@ var (
 	nextID  int64
 	byCall  sync.Map // *Call → *activation
 	tops    sync.Map // *Call → index among the calls handed to Run
+	epoch   int64    // bumped by Reset: events of activations from earlier runs are dropped
 	jitter  int64    // max random delay (µs) injected at every hook point
 	jitterR *rand.Rand
 	jmu     sync.Mutex
@@ -59,6 +61,7 @@ func Reset(seed int64, maxDelayMicros int64) {
 	mu.Lock()
 	events = nil
 	atomic.StoreInt64(&nextID, 0)
+	atomic.AddInt64(&epoch, 1)
 	mu.Unlock()
 	byCall = sync.Map{}
 	tops = sync.Map{}
@@ -106,8 +109,12 @@ func (c *Counter) Next() int { return int(atomic.AddInt64(&c.n, 1) - 1) }
 // Enter is called first thing in RunTask.
 func Enter(ctx context.Context, call any, task string) context.Context {
 	perturb()
+	ep := atomic.LoadInt64(&epoch)
+	if pa, ok := ctx.Value(actKey{}).(*activation); ok && pa != nil && pa.epoch != ep {
+		return ctx // a goroutine left over from an earlier run
+	}
 	id := atomic.AddInt64(&nextID, 1)
-	a := &activation{id: id}
+	a := &activation{id: id, epoch: ep}
 	byCall.Store(call, a)
 	kind, parent, idx := "top", int64(0), -1
 	if ci, ok := ctx.Value(childKey{}).(*childInfo); ok && ci != nil {
@@ -138,7 +145,7 @@ func Child(ctx context.Context, kind string, idx int) context.Context {
 func Adopt(ctx context.Context, call any) context.Context {
 	if v, ok := byCall.Load(call); ok {
 		a := v.(*activation)
-		return context.WithValue(ctx, actKey{}, &activation{id: a.id, deferred: true})
+		return context.WithValue(ctx, actKey{}, &activation{id: a.id, epoch: a.epoch, deferred: true})
 	}
 	return ctx
 }
@@ -147,7 +154,7 @@ func Adopt(ctx context.Context, call any) context.Context {
 // must be called before the action, events that obtain something after it.
 func Ev(ctx context.Context, kind string, args ...any) {
 	a, _ := ctx.Value(actKey{}).(*activation)
-	if a == nil {
+	if a == nil || a.epoch != atomic.LoadInt64(&epoch) {
 		return
 	}
 	before := kind == "release" || kind == "wRelease" || kind == "depsRelease" || kind == "callRelease" || kind == "execDone" || kind == "exit"
